@@ -159,12 +159,15 @@ func C15_Targets() {
 		verif.Assert(bcl.Bind(&t, nil) != nil, "nil binding is an error")
 	default:
 		// slice target keeps its previous contents on error
-		prev := []TOdd{{Name: "keep", Count: 7}}
-		ts := prev
+		// spare capacity, so an implementation that reuses the target's storage
+		// would be seen
+		ts := make([]TOdd, 2, 4)
+		ts[0] = TOdd{Name: "keep", Count: 7}
+		ts[1] = TOdd{Name: "keep2", Count: 8, Text: "t"}
 		good := bcl.Block{Type: "todd", Fields: map[string]any{"count": 1}}
 		err := bcl.Bind(&ts, bcl.SliceBinding{Value: []bcl.Block{good, blk}})
 		if err != nil {
-			verif.Assert(len(ts) == 1 && ts[0].Name == "keep" && ts[0].Count == 7, "on error a slice target keeps its previous contents")
+			verif.Assert(len(ts) == 2 && ts[0].Name == "keep" && ts[0].Count == 7 && ts[1].Name == "keep2" && ts[1].Count == 8 && ts[1].Text == "t", "on error a slice target keeps its previous contents")
 			verif.Reach("error")
 		} else {
 			verif.Assert(len(ts) == 2, "slice bound")
